@@ -430,21 +430,21 @@ pub fn conclude(
         return 0;
     }
     let known = load_known_findings(&ctx.verif_dir);
-    // One representative (lowest sim index) per class.
-    let mut by_class: BTreeMap<String, Violation> = BTreeMap::new();
+    // Per class the violations in sim order: the first that reproduces from its explicit
+    // scenario (in this process, then minimised, then in a fresh process) is the one reported.
+    let mut by_class: BTreeMap<String, Vec<&Violation>> = BTreeMap::new();
     for v in &rep.violations {
-        by_class
-            .entry(v.class.clone())
-            .and_modify(|e| {
-                if v.sim_index < e.sim_index {
-                    *e = v.clone();
-                }
-            })
-            .or_insert_with(|| v.clone());
+        by_class.entry(v.class.clone()).or_default().push(v);
+    }
+    for vs in by_class.values_mut() {
+        vs.sort_by_key(|v| v.sim_index);
     }
     let mut unlisted = 0usize;
     let mut lines: Vec<String> = vec![];
-    for (class, v) in &by_class {
+    // classes seen in the batch of which no instance could be reproduced from its explicit
+    // scenario: a VIOLATION line is never printed for those
+    let mut unconfirmed: Vec<String> = vec![];
+    for (class, vs) in &by_class {
         if let Some(k) = known
             .iter()
             .find(|k| k.property == ctx.prop && &k.class == class)
@@ -455,40 +455,56 @@ pub fn conclude(
             ));
             continue;
         }
-        // Re-run the unminimised scenario first: it has to reproduce from its explicit form.
-        let first = replay(&v.scenario);
-        let base = match first.into_iter().find(|x| &x.class == class) {
-            Some(mut b) => {
-                b.sim_index = v.sim_index;
-                b.sim_seed = v.sim_seed;
-                b
-            }
-            None => {
+        let mut reported = false;
+        for v in vs.iter().take(5) {
+            // Re-run the unminimised scenario first: it has to reproduce from its explicit form.
+            let first = replay(&v.scenario);
+            let Some(mut base) = first.into_iter().find(|x| &x.class == class) else {
                 eprintln!(
-                    "harness error: violation class {} of sim {} does not reproduce from its explicit scenario (nondeterminism in the harness)",
+                    "note: violation class {} of sim {} does not reproduce from its explicit scenario (state outside the simulated process? engine statics are shared by all sims of this OS process)",
                     class, v.sim_index
                 );
                 eprintln!("scenario: {}", v.scenario);
-                return 2;
+                continue;
+            };
+            base.sim_index = v.sim_index;
+            base.sim_seed = v.sim_seed;
+            let min = minimise(&base, replay, shrink, 400);
+            let path = write_replay(ctx, &min, v);
+            if !confirm_in_fresh_process(ctx, &path, &min) {
+                eprintln!(
+                    "note: replay file {} did not reproduce class {} with the recorded event-log hash in a fresh process",
+                    path.display(),
+                    class
+                );
+                let _ = std::fs::remove_file(&path);
+                continue;
             }
-        };
-        let min = minimise(&base, replay, shrink, 400);
-        let path = write_replay(ctx, &min, v);
-        if !confirm_in_fresh_process(ctx, &path, &min) {
-            eprintln!(
-                "harness error: replay file {} did not reproduce class {} with the recorded event-log hash in a fresh process",
-                path.display(),
-                class
-            );
-            return 2;
+            unlisted += 1;
+            reported = true;
+            lines.push(format!("  class={} detail={}", class, min.detail));
+            lines.push(format!(
+                "VIOLATION property={} replay={}",
+                ctx.prop,
+                path.display()
+            ));
+            break;
         }
-        unlisted += 1;
-        lines.push(format!("  class={} detail={}", class, min.detail));
-        lines.push(format!(
-            "VIOLATION property={} replay={}",
-            ctx.prop,
-            path.display()
-        ));
+        if !reported {
+            unconfirmed.push(class.clone());
+        }
+    }
+    if unlisted == 0 && !unconfirmed.is_empty() {
+        // something was seen, nothing replays: that is an error of the machinery (or engine
+        // state the simulator does not own), never reported as a violation and never as a pass
+        eprintln!(
+            "harness error: violation class(es) {:?} were seen in the batch but no instance reproduces from its explicit scenario in a fresh process",
+            unconfirmed
+        );
+        return 2;
+    }
+    for c in &unconfirmed {
+        lines.push(format!("  note: class={} was also seen in the batch but did not replay; not reported", c));
     }
     write_evidence(ctx, rep, ev, rep.violations.len());
     println!(
